@@ -396,6 +396,21 @@ func reportFuzz(t *testing.T, c *c10Case) {
 			}
 		}
 	}
+	if os.Getenv("VERIF_SELFTEST_WORKER_DIES") != "" && len(c.Input)%97 == 13 {
+		// self-test of the driver only: a fuzz worker process that dies although the input is harmless
+		for _, a := range os.Args {
+			if strings.HasPrefix(a, "-test.fuzzworker") {
+				os.Exit(3)
+			}
+		}
+	}
+	if p := os.Getenv("VERIF_FUZZ_PREWRITE"); p != "" {
+		// the driver re-executes an input the engine saved without a verdict of the oracle: leave the case behind
+		// first, in case this execution crashes hard or does not finish
+		b, _ := json.Marshal(c)
+		eb, _ := json.Marshal(lib.Envelope{Property: "C10", Part: "structured", Message: "case in flight", Case: b})
+		os.WriteFile(p, eb, 0o644)
+	}
 	o := lib.SafeCheck(c10Check, c)
 	if o.Violation == "" {
 		return
